@@ -101,12 +101,14 @@ func (p *MultilineAction) Do(event *pipeline.Event) pipeline.ActionResult {
 
 	// don't need to unescape/escape log fields cause concatenation of escaped strings is escaped string.
 	// get escaped string because of CRI format.
-	buf.B = event.Root.Dig("log").AppendEscapedString(buf.B)
-	logFragment := pipeline.ByteToStringUnsafe(buf.B)
-	if logFragment == "" {
-		p.logger.Fatalf("wrong event format, it doesn't contain log field: %s", event.Root.EncodeToString())
-		panic("_")
+	logNode := event.Root.Dig("log")
+	if logNode == nil || !logNode.IsString() {
+		// event content must not take the collector down: pass such an event as is
+		p.logger.Errorf("wrong event format, log field isn't a string: %s", event.Root.EncodeToString())
+		return pipeline.ActionPass
 	}
+	buf.B = logNode.AppendEscapedString(buf.B)
+	logFragment := pipeline.ByteToStringUnsafe(buf.B)
 
 	// docker splits long logs by 16kb chunks, so let's join them
 	// look ahead to ensure we won't throw events longer than SplitEventSize
